@@ -1032,9 +1032,13 @@ func runC12(ctx *Ctx) error {
 	}
 	nStage, maxN := 6000, 40
 	if ctx.Thorough() {
-		nStage, maxN = 40000, 300
+		nStage, maxN = 120000, 300
 	}
 	for k := 0; k < nStage; k++ {
+		if len(ctx.Rep.Failures) >= 40 {
+			ctx.Rep.Note("stage stream stopped after 40 failures")
+			break
+		}
 		r := ctx.Rand.Fork()
 		n := maxN
 		if k%10 != 0 {
@@ -1046,9 +1050,13 @@ func runC12(ctx *Ctx) error {
 	// ---- end to end
 	nFed := 700
 	if ctx.Thorough() {
-		nFed = 5000
+		nFed = 15000
 	}
 	for k := 0; k < nFed; k++ {
+		if len(ctx.Rep.Failures) >= 80 {
+			ctx.Rep.Note("end-to-end stream stopped after 80 failures")
+			break
+		}
 		r := ctx.Rand.Fork()
 		base := c12E2E{Stream: "e2e", FedSeed: r.U64(), MaxList: hx.Pick(r, []int{4, 30, 200}), MaxBatch: 100000, Hint: r.Chance(1, 2)}
 		if r.Chance(1, 5) {
